@@ -1572,4 +1572,67 @@ theorem nextOf_range (bs : List (List Nat)) (m : Nat) (hm : bs.length ≤ m) :
 
 end Sessions
 
+/-! ## 9. views: a session + the flags stored on the loader and its data set -/
+section Views
+
+theorem View.exec_append (perm : Nat → List Nat) : ∀ (a b : List VOp) (v : View),
+    View.exec perm (a ++ b) v
+      = ((View.exec perm a v).1 ++ (View.exec perm b (View.exec perm a v).2).1,
+         (View.exec perm b (View.exec perm a v).2).2) := by
+  intro a
+  induction a with
+  | nil => intro b v; rfl
+  | cons op a ih =>
+    intro b v
+    show ((op, _) :: (View.exec perm (a ++ b) _).1, (View.exec perm (a ++ b) _).2) = _
+    rw [ih]
+    rfl
+
+/-- One trace entry per operation. -/
+theorem View.exec_length (perm : Nat → List Nat) : ∀ (ops : List VOp) (v : View),
+    (View.exec perm ops v).1.length = ops.length := by
+  intro ops
+  induction ops with
+  | nil => intro v; rfl
+  | cons op ops ih =>
+    intro v
+    show ((View.exec perm ops (View.step perm op v).2).1.length + 1) = ops.length + 1
+    rw [ih]
+
+theorem presentAfter_append (p : Present) (a b : List VOp) :
+    presentAfter p (a ++ b) = presentAfter (presentAfter p a) b := by
+  simp [presentAfter, List.foldl_append]
+
+/-- The flags after a script are the fold of its assignments - whatever else the script does. -/
+theorem View.exec_present (perm : Nat → List Nat) : ∀ (ops : List VOp) (v : View),
+    (View.exec perm ops v).2.present = presentAfter v.present ops := by
+  intro ops
+  induction ops with
+  | nil => intro v; rfl
+  | cons op ops ih =>
+    intro v
+    show (View.exec perm ops (View.step perm op v).2).2.present = _
+    rw [ih]
+    cases op <;> rfl
+
+/-- An assignment to a presentation attribute leaves the session (loader, sampler, iterators) as it
+is; a `Session` operation acts on the session as `Session.step` does. -/
+theorem View.exec_session (perm : Nat → List Nat) : ∀ (ops : List VOp) (v : View),
+    (∀ d, VOp.setDrop d ∉ ops) →
+    (View.exec perm ops v).2.session = (Session.exec perm (ioOps ops) v.session).2 := by
+  intro ops
+  induction ops with
+  | nil => intro v _; rfl
+  | cons op ops ih =>
+    intro v h
+    have h' : ∀ d, VOp.setDrop d ∉ ops := fun d hd => h d (List.mem_cons_of_mem _ hd)
+    show (View.exec perm ops (View.step perm op v).2).2.session = _
+    rw [ih _ h']
+    cases op with
+    | io o => rfl
+    | assign a b => rfl
+    | setDrop d => exact absurd List.mem_cons_self (h d)
+
+end Views
+
 end PdtVerif.Batching
